@@ -14,6 +14,16 @@ import (
 )
 
 func earlyCloseCase(ver int, stall bool, nrecs int) {
+	// timing: the first part of the response has to arrive before the deadline, the tail after it; on a loaded machine
+	// the first read may time out — such a run says nothing and is repeated (then dropped)
+	for try := 0; try < 4; try++ {
+		if earlyCloseTry(ver, stall, nrecs) {
+			return
+		}
+	}
+}
+
+func earlyCloseTry(ver int, stall bool, nrecs int) bool {
 	var recs []Rec
 	for i := 0; i < nrecs; i++ {
 		recs = append(recs, Rec{Offset: 100 + int64(i), Key: []byte("k"), Value: make([]byte, 200), TsMs: 1600000000000})
@@ -36,7 +46,7 @@ func earlyCloseCase(ver int, stall bool, nrecs int) {
 	}}
 	ln, err := net.Listen("tcp", "127.0.0.1:0")
 	if err != nil {
-		return
+		return true
 	}
 	defer ln.Close()
 	go func() {
@@ -47,14 +57,23 @@ func earlyCloseCase(ver int, stall bool, nrecs int) {
 	}()
 	cli, err := net.Dial("tcp", ln.Addr().String())
 	if err != nil {
-		return
+		return true
 	}
 	conn := kafka.NewConn(cli, "t", 0)
 	defer conn.Close()
+	// warm-up: the ApiVersions exchange is cached, the timed window only holds the fetch
+	conn.SetDeadline(time.Now().Add(10 * time.Second))
+	if _, _, err := conn.ReadOffsets(); err != nil {
+		return false
+	}
 	conn.Seek(100, kafka.SeekAbsolute|kafka.SeekDontCheck)
 	conn.SetDeadline(time.Now().Add(250 * time.Millisecond))
 	batch := conn.ReadBatchWith(kafka.ReadBatchConfig{MinBytes: 1, MaxBytes: 1 << 20})
 	_, rerr := batch.ReadMessage()
+	if rerr != nil {
+		batch.Close()
+		return false
+	}
 	cerr := batch.Close()
 	time.Sleep(500 * time.Millisecond) // the tail of the response has been sent by now
 	conn.SetDeadline(time.Now().Add(2 * time.Second))
@@ -71,6 +90,7 @@ func earlyCloseCase(ver int, stall bool, nrecs int) {
 		closeCls = errClass(cerr)
 	}
 	emit(fmt.Sprintf("earlyclose v=%d stall=%v n=%d", ver, stall, nrecs), fmt.Sprintf("first=%s close=%s next=%s", errClass(rerr), closeCls, next))
+	return true
 }
 
 func earlyCloseCases() {
